@@ -238,6 +238,9 @@ func (se *specEnv) ident(x *ast.Ident) tv {
 		if c, ok := o.(*types.Const); ok {
 			return se.constVal(c.Val(), c.Type())
 		}
+		if tn, ok := o.(*types.TypeName); ok {
+			return tv{term: "", typ: tn.Type()}
+		}
 	}
 	return se.fail("unknown identifier %q in spec", x.Name)
 }
@@ -807,6 +810,20 @@ func (se *specEnv) call(x *ast.CallExpr) tv {
 			return tv{term: a.term, typ: tt.typ, isLoc: true}
 		}
 		return tv{term: a.term, typ: tt.typ}
+	case "unbox":
+		// unbox(T, x): the value of Go type T boxed in interface x
+		if !argn(2) {
+			return tv{term: "false", typ: boolT}
+		}
+		tt := se.eval(x.Args[0])
+		a := se.eval(x.Args[1])
+		if tt.typ == nil {
+			return se.fail("unbox: first argument must be a type")
+		}
+		return tv{term: se.v.load(se.cur, &addr{kind: aCell, base: fmt.Sprintf("(i_val %s)", a.term), typ: tt.typ}), typ: tt.typ}
+	case "iptr":
+		// iptr(): the (single, abstract) address of a struct-valued field passed by pointer
+		return tv{term: "interior_ptr", typ: intT}
 	case "is_elem_of":
 		// is_elem_of(p, s): pointer p points at an element of the slice of structs s
 		p, s := se.eval(x.Args[0]), se.eval(x.Args[1])
